@@ -1220,6 +1220,144 @@ pub fn run_c16(tier: &str, deadline: Instant, total: &mut Stats, log: &mut Vec<V
         eprintln!("  [{label}] evaluated={} viol={} {}{:.1}s", st.execs, st.viol_total, if st.capped { "CAPPED " } else { "" }, t0.elapsed().as_secs_f64());
         total.merge(st);
     }
+    // deeper histories on more functions: grow a DAG edge by edge, probe every call in every state
+    let probes: Vec<(usize, usize)> = if tier == "thorough" { vec![(5, 8), (6, 6), (6, 7)] } else { vec![(5, 6), (6, 5)] };
+    for (n, depth) in probes {
+        run_c16_probe(n, depth, deadline, total, log);
+    }
+}
+
+/// C16, deeper on more functions: every sequence of `depth` *accepted new* logic edges over n
+/// functions (i.e. every ordered way to grow a DAG edge by edge), and after each such sequence
+/// every possible call (new edge, repeated pair, reversed pair, self edge, cycle-closing edge) as
+/// a probe whose accept/reject result is compared with the reference model.
+pub fn run_c16_probe(n: usize, depth: usize, deadline: Instant, total: &mut Stats, log: &mut Vec<Value>) {
+    let calls: Vec<(usize, usize)> = (0..n).flat_map(|a| (0..n).map(move |b| (a, b))).collect();
+    // reachability as bitmasks, reach[a] = nodes reachable from a (non-empty paths)
+    fn add_edge(reach: &mut [u8; 8], n: usize, a: usize, b: usize) {
+        let add = (1u8 << b) | reach[b];
+        for x in 0..n {
+            if x == a || reach[x] >> a & 1 == 1 {
+                reach[x] |= add;
+            }
+        }
+    }
+    // returns the result of the last call of `seq` and whether all earlier calls were accepted
+    fn run_real(n: usize, seq: &[(usize, usize)]) -> Result<(bool, bool), String> {
+        catch_quiet(|| {
+            let mut b = FnGraphBuilder::new();
+            let ids: Vec<FnId> = (0..n).map(|i| b.add_fn(Node::new(i, vec![]))).collect();
+            let mut all_ok = true;
+            let mut last = true;
+            for (k, &(x, y)) in seq.iter().enumerate() {
+                let r = b.add_logic_edge(ids[x], ids[y]).is_ok();
+                if k + 1 == seq.len() {
+                    last = r;
+                } else if !r {
+                    all_ok = false;
+                }
+            }
+            (last, all_ok)
+        })
+    }
+    let firsts: Vec<Vec<(usize, usize)>> = {
+        let mut v = vec![vec![]];
+        for &(a, b) in &calls {
+            if a != b {
+                v.push(vec![(a, b)]);
+                for &(c, d) in &calls {
+                    if c != d && (c, d) != (a, b) && !(c == b && d == a) {
+                        v.push(vec![(a, b), (c, d)]);
+                    }
+                }
+            }
+        }
+        v
+    };
+    let t0 = Instant::now();
+    let mut st = Stats::default();
+    let calls_ref = &calls;
+    let capped = par_for(
+        firsts.len(),
+        deadline,
+        Stats::default,
+        |i, local: &mut Stats| {
+            let pre = &firsts[i];
+            // sequences shorter than 2 are only roots of the recursion for themselves
+            struct Ctx<'a> {
+                n: usize,
+                depth: usize,
+                calls: &'a [(usize, usize)],
+                deadline: Instant,
+            }
+            fn rec(cx: &Ctx, seq: &mut Vec<(usize, usize)>, present: u64, reach: [u8; 8], extend: bool, local: &mut Stats) {
+                if local.execs % 4096 == 0 && Instant::now() > cx.deadline {
+                    local.capped = true;
+                    return;
+                }
+                for &(a, b) in cx.calls {
+                    let bit = 1u64 << (a * cx.n + b);
+                    let is_present = present & bit != 0;
+                    let want = is_present || (a != b && reach[b] >> a & 1 == 0);
+                    seq.push((a, b));
+                    let got = run_real(cx.n, seq);
+                    local.execs += 1;
+                    local.transitions += 1;
+                    match got {
+                        Ok((last, all_ok)) => {
+                            if last != want || !all_ok {
+                                let spec = Spec { n: cx.n, edges: seq.iter().map(|&(x, y)| (x, y, false)).collect(), decl: vec![] };
+                                bviol(local, 16, &spec, "call_sequence", format!("after {} accepted edges the call {a}->{b} returned {}, reference {} (earlier calls all accepted: {all_ok})", seq.len() - 1, if last { "Ok" } else { "WouldCycle" }, if want { "Ok" } else { "WouldCycle" }));
+                            }
+                        }
+                        Err(m) => {
+                            let spec = Spec { n: cx.n, edges: seq.iter().map(|&(x, y)| (x, y, false)).collect(), decl: vec![] };
+                            bviol(local, 16, &spec, "call_sequence", format!("builder panicked: {m}"));
+                        }
+                    }
+                    if !want {
+                        local.count("probes_rejected_by_the_reference", 1);
+                    }
+                    if extend && want && !is_present && seq.len() < cx.depth {
+                        let mut r2 = reach;
+                        add_edge(&mut r2, cx.n, a, b);
+                        rec(cx, seq, present | bit, r2, true, local);
+                    }
+                    seq.pop();
+                }
+            }
+            let cx = Ctx { n, depth, calls: calls_ref, deadline };
+            let mut reach = [0u8; 8];
+            let mut present = 0u64;
+            let mut ok = true;
+            for &(a, b) in pre {
+                if reach[b] >> a & 1 == 1 || present & (1u64 << (a * n + b)) != 0 {
+                    ok = false;
+                    break;
+                }
+                add_edge(&mut reach, n, a, b);
+                present |= 1u64 << (a * n + b);
+            }
+            if !ok {
+                return;
+            }
+            let mut seq = pre.clone();
+            // prefixes of length 0 and 1 only probe; prefixes of length 2 probe and extend
+            rec(&cx, &mut seq, present, reach, pre.len() == 2 || depth <= 2, local);
+            if local.samples.is_empty() && pre.len() == 2 && i % 97 == 3 {
+                local.samples.push(json!({"n": n, "accepted_prefix": pre, "then": "every call as a probe, every accepted new edge extended"}));
+            }
+            local.states += 1;
+            local.distinct_traces += 1;
+            local.nontrivial += 1;
+        },
+        |l| st.merge(l),
+    );
+    st.capped |= capped;
+    let label = format!("every ordered way to grow a DAG on n={n} functions by up to {depth} accepted logic edges, each state probed with all {} possible calls", calls.len());
+    log.push(json!({"space": label, "calls_evaluated": st.execs, "completed": !st.capped, "wall_s": t0.elapsed().as_secs_f64()}));
+    eprintln!("  [{label}] evaluated={} viol={} {}{:.1}s", st.execs, st.viol_total, if st.capped { "CAPPED " } else { "" }, t0.elapsed().as_secs_f64());
+    total.merge(st);
 }
 
 // ---------------------------------------------------------------------------
